@@ -51,10 +51,25 @@ type Rec struct {
 	// Reps are the searched representations of the payload: Reps[""] is the raw payload, other keys
 	// are converter names with cached output.
 	Reps map[string][]Chunk
+	// Opaque gives the verdict of data filter elements the evaluator cannot compute (they contain variables
+	// of a sub-query): key = OpaqueKey of the element.  Such an element is an atom whose truth the universe
+	// assigns freely; what is judged is that the normal form is the same boolean function of these atoms.
+	Opaque map[string]bool
+}
+
+// OpaqueKey identifies a data filter element by everything it consists of.
+func OpaqueKey(e query.DataConditionElement) string {
+	return fmt.Sprintf("%s|%q|%v|%d|%s", e.SubQuery, e.Regex, e.Variables, e.Flags&query.DataRequirementSequenceFlagsDirection, e.ConverterName)
 }
 
 func (r *Rec) Clone() *Rec {
 	n := *r
+	if r.Opaque != nil {
+		n.Opaque = map[string]bool{}
+		for k, v := range r.Opaque {
+			n.Opaque[k] = v
+		}
+	}
 	n.Tags = map[string]TagState{}
 	for k, v := range r.Tags {
 		n.Tags[k] = v
@@ -265,6 +280,19 @@ func (n *Node) PureData() bool {
 
 // WellDefined reports whether the reference semantics gives the tree a meaning: a THEN node needs
 // operands that are pure-data, or all-but-one... (a side without any data atom makes THEN an AND).
+// HasThen says whether the tree contains a THEN.
+func (n *Node) HasThen() bool {
+	if n.Kind == KThen {
+		return true
+	}
+	for _, k := range n.Kids {
+		if k.HasThen() {
+			return true
+		}
+	}
+	return false
+}
+
 func (n *Node) WellDefined() bool {
 	for _, k := range n.Kids {
 		if !k.WellDefined() {
@@ -522,6 +550,9 @@ func evalCond(cc query.Condition, r *Rec, refTime time.Time, res map[string]*bin
 		seq := make([]SeqElem, len(c.Elements))
 		for i, e := range c.Elements {
 			if e.SubQuery != "" || len(e.Variables) != 0 {
+				if v, ok := r.Opaque[OpaqueKey(e)]; ok && len(c.Elements) == 1 {
+					return v != c.Inverted, nil
+				}
 				return false, fmt.Errorf("sub-query or variable in data condition")
 			}
 			seq[i] = SeqElem{Dir: int(e.Flags & query.DataRequirementSequenceFlagsDirection), Regex: e.Regex, Conv: e.ConverterName}
